@@ -11,6 +11,9 @@ PROPS = {
     "C07": P(150000, 4000000, expect_reach=["lin.decided", "pool.empty_pops", "pool.blocking_pop_got_unit"],
              assumptions=["clients respect the producer/consumer counts of the access mode; ABT_pool_remove is issued only by the sole consumer for a unit whose push has returned (API precondition: the unit is in the pool)",
                           "histories <= 48 operations, search capped at 1e6 nodes (undecided histories are counted, never passed or failed)"]),
+    "C08": P(60000, 1500000, expect_reach=["c08.lapping_entries"], assumptions=["ABT_barrier_reinit is called only while nobody waits (API precondition)"]),
+    "C09": P(60000, 1500000, expect_reach=["c09.waits_blocked_before_set", "c09.tests_ready"], assumptions=["ABT_eventual_reset is called only at quiescent points (no waiter, no setter in flight)"]),
+    "C10": P(60000, 1500000, expect_reach=["c10.reads_sharing_the_lock"], assumptions=["lockers unlock what they locked; finite programs (no reader stream that starves a writer for ever)"]),
     "C19": P(60000, 1500000, expect_reach=["c19.timeouts", "c19.signal_with_certain_waiter"],
              assumptions=["deadlines are relative to the run's virtual time scale; TIMEDOUT is checked against the virtual clock, never against elapsed steps"]),
     "C01": P(50000, 1200000, assumptions=["units that create other units finish before streams are joined (a creation racing with the join of the only stream serving the target pool is the program's error)"]),
